@@ -351,22 +351,24 @@ def run_check(pid, tier, seed, workers=None, quiet=False):
     os.makedirs(REPLAY_DIR, exist_ok=True)
 
     # stored traces of listed findings
+    stored_traces = 0
     for e in findings:
-        rp = e.get("replay")
-        if not rp:
-            continue
-        with open(os.path.join(ROOT, rp)) as fh:
-            stored = json.load(fh)
-        res = mod.execute(stored["case"])
-        hit = [s for s in res.get("violations", ()) if matches(s, e["match"])]
+        any_hit = False
+        for rp in e.get("replays", ()):
+            with open(os.path.join(ROOT, rp)) as fh:
+                stored = json.load(fh)
+            stored_traces += 1
+            res = isolated_call(mod.execute, stored["case"])
+            hit = [s for s in res.get("violations", ()) if matches(s, e["match"])]
+            any_hit = any_hit or bool(hit)
+            if e["status"] == "fixed" and hit:
+                # a repaired defect came back: report like any other violation
+                by_key.setdefault(sig_key(hit[0]), [(stored["case"], hit[0], 0, [])])
         if e["status"] == "open":
-            if hit:
+            if any_hit:
                 known_hit[e["id"]] = e
-            else:
+            elif e.get("replays"):
                 print("stale known finding %s: stored trace no longer reproduces" % e["id"], file=sys.stderr)
-        elif e["status"] == "fixed" and hit:
-            # a repaired defect came back: report like any other violation
-            by_key.setdefault(sig_key(hit[0]), [(stored["case"], hit[0], 0, [])])
 
     minimise_budget = float(os.environ.get("VERIF_MINIMISE_S", 25))
     for k in sorted(by_key):
@@ -447,6 +449,7 @@ def run_check(pid, tier, seed, workers=None, quiet=False):
         "components": mod.COMPONENTS,
         "simulated_time": "not applicable: the system under test has no clocks or timers; progress is counted in simulator steps",
         "known_findings_reported": sorted(known_hit),
+        "stored_regression_traces_replayed": stored_traces,
         "violation_classes": sorted(by_key),
     }
     ev = {
